@@ -45,27 +45,42 @@ Proof. intros [E|E] H; subst; destruct x; cbn in *; auto. Qed.
 
 (* ---- reading one coefficient *)
 
+Definition fp_type (d : polydesc) : bool := match d_ctype d with TFloat => true | _ => false end.
+
+(* what the proofs need of the number tokens of a description: they are read back to the canonical
+   value, and they are tokens *)
+Definition parts_readable (d : polydesc) : Prop :=
+  forall x rest, num_ok (d_ctype d) x ->
+    read_part (fp_type d) true (part_tokens d x ++ rest) = Some (canon (num_value x), rest).
+Definition parts_tokens (d : polydesc) : Prop :=
+  forall x, num_ok (d_ctype d) x -> Forall tok_ok (part_tokens d x).
+
+Lemma exact_readable d : d_legacy d = false -> exact_type d -> parts_readable d /\ parts_tokens d.
+Proof.
+  intros Hleg Hex.
+  assert (PE : forall x, part_tokens d x = num_tokens false x) by (intro x; unfold part_tokens; rewrite Hleg; reflexivity).
+  assert (FT : fp_type d = false) by (unfold fp_type; destruct Hex as [E|E]; rewrite E; reflexivity).
+  split.
+  - intros x rest H. rewrite PE, FT.
+    destruct (num_token_exact x (num_exact _ _ Hex H)) as [t [E1 E2]]. rewrite E1.
+    cbn [app read_part]. rewrite E2. reflexivity.
+  - intros x H. rewrite PE. apply num_tokens_ok, (num_exact _ _ Hex H).
+Qed.
+
 Section Coeffs.
 Variable d : polydesc.
-Hypothesis Hleg : d_legacy d = false.
-Hypothesis Hex : exact_type d.
-
-Lemma part_tokens_eq x : part_tokens d x = num_tokens false x.
-Proof. unfold part_tokens. rewrite Hleg. reflexivity. Qed.
+Hypothesis Hread : parts_readable d.
+Hypothesis Htoks : parts_tokens d.
 
 Lemma read_part_ok x rest : num_ok (d_ctype d) x ->
-  read_part false true (part_tokens d x ++ rest) = Some (canon (num_value x), rest).
-Proof.
-  intro H. rewrite part_tokens_eq.
-  destruct (num_token_exact x (num_exact _ _ Hex H)) as [t [E1 E2]]. rewrite E1.
-  cbn [app read_part]. rewrite E2. reflexivity.
-Qed.
+  read_part (fp_type d) true (part_tokens d x ++ rest) = Some (canon (num_value x), rest).
+Proof. apply Hread. Qed.
 
 Definition value_tokens (t : term) : list text :=
   part_tokens d (t_re t) ++ (if d_real d then [] else part_tokens d (t_im t)).
 
 Lemma read_term_ok t rest : term_ok (d_real d) (d_ctype d) t ->
-  read_cplx false true (negb (d_real d)) (value_tokens t ++ rest) = Some (term_val (d_real d) t, rest).
+  read_cplx (fp_type d) true (negb (d_real d)) (value_tokens t ++ rest) = Some (term_val (d_real d) t, rest).
 Proof.
   intros [H1 H2]. unfold read_cplx, value_tokens, term_val. rewrite <- app_assoc, read_part_ok by exact H1.
   destruct (d_real d); cbn [negb app].
@@ -75,13 +90,13 @@ Qed.
 
 Lemma value_tokens_ok t : term_ok (d_real d) (d_ctype d) t -> Forall tok_ok (value_tokens t).
 Proof.
-  intros [H1 H2]. unfold value_tokens. rewrite !part_tokens_eq. apply Forall_app. split.
-  - apply num_tokens_ok, (num_exact _ _ Hex H1).
-  - destruct (d_real d); [constructor|]. apply num_tokens_ok, (num_exact _ _ Hex (H2 eq_refl)).
+  intros [H1 H2]. unfold value_tokens. apply Forall_app. split.
+  - apply Htoks, H1.
+  - destruct (d_real d); [constructor|]. apply Htoks, (H2 eq_refl).
 Qed.
 
 Lemma read_dense_ok ts : forall rest, Forall (term_ok (d_real d) (d_ctype d)) ts ->
-  read_dense (read_cplx false true (negb (d_real d))) (length ts) (concat (map value_tokens ts) ++ rest)
+  read_dense (read_cplx (fp_type d) true (negb (d_real d))) (length ts) (concat (map value_tokens ts) ++ rest)
   = Some (map (term_val (d_real d)) ts, rest).
 Proof.
   induction ts as [|t ts IH]; intros rest H; [reflexivity|].
@@ -111,7 +126,7 @@ Lemma read_sparse_ok check n ts : forall fuel arr,
   NoDup (map t_idx ts) -> Forall (fun t => (t_idx t <= n)%nat) ts ->
   length arr = S n -> Forall (fun t => nth_error arr (t_idx t) = Some None) ts ->
   (length ts <= fuel)%nat ->
-  read_sparse fuel (read_cplx false true (negb (d_real d))) check (Z.of_nat n)
+  read_sparse fuel (read_cplx (fp_type d) true (negb (d_real d))) check (Z.of_nat n)
               (concat (map sparse_tokens ts)) arr
   = Some (fold_left set_term ts arr).
 Proof.
@@ -190,48 +205,116 @@ Proof. revert i; induction m; intros [|i] H; cbn; try lia; auto. apply IHm. lia.
 Lemma concat_length_ge {A B} (f : A -> list B) l : (forall x, (1 <= length (f x))%nat) -> (length l <= length (concat (map f l)))%nat.
 Proof. intro H. induction l; cbn; [lia|]. rewrite app_length. specialize (H a). lia. Qed.
 
+Lemma rd_target d :
+  read_cplx (is_fp (mk_structure (d_real d) (d_ctype d))) true (is_complex (mk_structure (d_real d) (d_ctype d)))
+  = read_cplx (fp_type d) true (negb (d_real d)).
+Proof. unfold fp_type. destruct (d_ctype d), (d_real d); reflexivity. Qed.
+
+(* the sparse loop of the monomial and Chebyshev readers on the rendered index/value tokens *)
+Lemma sparse_array_ok d check :
+  parts_readable d -> parts_tokens d ->
+  Forall (term_ok (d_real d) (d_ctype d)) (d_terms d) ->
+  NoDup (map t_idx (d_terms d)) -> Forall (fun t => (t_idx t <= d_degree d)%nat) (d_terms d) ->
+  read_sparse (length (concat (map (sparse_tokens d) (d_terms d)))) (read_cplx (fp_type d) true (negb (d_real d)))
+              check (Z.of_nat (d_degree d)) (concat (map (sparse_tokens d) (d_terms d))) (repeat None (S (d_degree d)))
+  = Some (map (fun i => match find_term i (d_terms d) with
+                        | Some t => Some (term_val (d_real d) t) | None => None end)
+              (seq 0 (S (d_degree d)))).
+Proof.
+  intros Hread Htoks Hterms Hnd Hle.
+  rewrite (read_sparse_ok d Hread check (d_degree d)); auto.
+  - f_equal. set (arr := fold_left (set_term d) (d_terms d) (repeat None (S (d_degree d)))).
+    assert (Hlen : length arr = S (d_degree d)) by (unfold arr; rewrite fold_set_length, repeat_length; reflexivity).
+    rewrite <- Hlen. apply list_from_nth. intros i Hi. unfold arr.
+    rewrite (fold_set_nth d); auto.
+    + destruct (find_term i (d_terms d)); [reflexivity|]. apply nth_error_repeat_lt. lia.
+    + eapply Forall_impl; [|exact Hle]. intros t Ht. rewrite repeat_length. cbn beta in Ht. lia.
+  - apply repeat_length.
+  - apply Forall_forall. intros t Ht. apply nth_error_repeat_lt.
+    pose proof (proj1 (Forall_forall _ _) Hle t Ht) as L. cbn beta in L. lia.
+  - apply concat_length_ge. intro t. cbn. lia.
+Qed.
+
+Lemma dense_coeffs_ok d : parts_readable d ->
+  Forall (term_ok (d_real d) (d_ctype d)) (d_terms d) ->
+  map t_idx (d_terms d) = seq 0 (S (d_degree d)) ->
+  read_dense (read_cplx (fp_type d) true (negb (d_real d))) (S (d_degree d)) (concat (map (value_tokens d) (d_terms d)))
+  = Some (map (fun i => match find_term i (d_terms d) with
+                        | Some t => term_val (d_real d) t | None => (raw0, raw0) end) (seq 0 (S (d_degree d))), []).
+Proof.
+  intros Hread Hterms Hk.
+  assert (Hlen : length (d_terms d) = S (d_degree d)).
+  { rewrite <- (map_length t_idx), Hk, seq_length. reflexivity. }
+  rewrite <- (app_nil_r (concat (map (value_tokens d) (d_terms d)))), <- Hlen.
+  rewrite (read_dense_ok d Hread) by exact Hterms.
+  do 2 f_equal. symmetry. apply find_seq. rewrite Hk, Hlen. reflexivity.
+Qed.
+
 Theorem read_monomial_ok d :
-  wf d -> d_legacy d = false -> d_kind d = KMonomial -> exact_type d ->
+  wf d -> d_kind d = KMonomial -> parts_readable d -> parts_tokens d ->
   read_monomial (target_settings d) (coeff_tokens d) = Poly (denote d).
 Proof.
-  intros (Hdeg & Hterms & _ & Hk & _) Hleg Hkind Hex.
+  intros (Hdeg & Hterms & _ & Hk & _) Hkind Hread Htoks.
   rewrite Hkind in Hk. destruct Hk as [Hb Hk].
   unfold read_monomial, target_settings, coeff_tokens, denote. rewrite Hkind.
-  cbn [s_n s_struct s_density s_repr s_prec]. rewrite Nat2Z.id.
-  assert (RD : read_cplx (is_fp (mk_structure (d_real d) (d_ctype d))) true (is_complex (mk_structure (d_real d) (d_ctype d)))
-               = read_cplx false true (negb (d_real d))).
-  { destruct Hex as [E|E]; rewrite E; destruct (d_real d); reflexivity. }
-  rewrite RD. clear RD.
+  cbn [s_n s_struct s_density s_repr s_prec]. rewrite Nat2Z.id, rd_target.
   destruct (d_sparse d) eqn:Hsp.
-  - (* sparse *)
-    destruct Hk as (Hnd & Hle & Hne).
+  - destruct Hk as (Hnd & Hle & Hne).
     change (concat (map (term_tokens d true) (d_terms d))) with (concat (map (sparse_tokens d) (d_terms d))).
-    rewrite (read_sparse_ok d Hleg Hex true (d_degree d)); auto.
-    + set (arr := fold_left (set_term d) (d_terms d) (repeat None (S (d_degree d)))).
-      assert (Hlen : length arr = S (d_degree d)) by (unfold arr; rewrite fold_set_length, repeat_length; reflexivity).
-      assert (Harr : arr = map (fun i => match find_term i (d_terms d) with
-                                         | Some t => Some (term_val (d_real d) t) | None => None end)
-                               (seq 0 (S (d_degree d)))).
-      { rewrite <- Hlen. apply list_from_nth. intros i Hi. unfold arr.
-        rewrite (fold_set_nth d); auto.
-        - destruct (find_term i (d_terms d)); [reflexivity|]. apply nth_error_repeat_lt. lia.
-        - eapply Forall_impl; [|exact Hle]. intros t Ht. rewrite repeat_length. cbn beta in Ht. lia. }
-      f_equal. unfold mk_poly. cbn [s_n s_struct s_density s_repr s_prec]. cbv iota. rewrite Harr.
-      unfold arr_spar, arr_coeffs. rewrite !map_map.
-      f_equal; apply map_ext; intro i; destruct (find_term i (d_terms d)); reflexivity.
-    + apply repeat_length.
-    + apply Forall_forall. intros t Ht. apply nth_error_repeat_lt.
-      pose proof (proj1 (Forall_forall _ _) Hle t Ht) as L. cbn beta in L. lia.
-    + apply concat_length_ge. intro t. cbn. lia.
-  - (* dense *)
-    assert (Hlen : length (d_terms d) = S (d_degree d)).
-    { rewrite <- (map_length t_idx), Hk, seq_length. reflexivity. }
-    change (concat (map (term_tokens d false) (d_terms d))) with (concat (map (value_tokens d) (d_terms d))).
-    rewrite <- (app_nil_r (concat (map (value_tokens d) (d_terms d)))), <- Hlen.
-    rewrite (read_dense_ok d Hleg Hex) by exact Hterms.
+    rewrite (sparse_array_ok d true) by auto.
     f_equal. unfold mk_poly. cbn [s_n s_struct s_density s_repr s_prec]. cbv iota.
-    rewrite map_const_repeat, Hlen.
-    f_equal. rewrite <- Hlen. symmetry. apply find_seq. rewrite Hk, Hlen. reflexivity.
+    unfold arr_spar, arr_coeffs. rewrite !map_map.
+    f_equal; apply map_ext; intro i; destruct (find_term i (d_terms d)); reflexivity.
+  - change (concat (map (term_tokens d false) (d_terms d))) with (concat (map (value_tokens d) (d_terms d))).
+    rewrite dense_coeffs_ok by auto.
+    f_equal. unfold mk_poly. cbn [s_n s_struct s_density s_repr s_prec]. cbv iota.
+    rewrite map_const_repeat. reflexivity.
+Qed.
+
+Theorem read_chebyshev_ok d :
+  wf d -> d_kind d = KChebyshev -> parts_readable d -> parts_tokens d ->
+  read_chebyshev (target_settings d) (coeff_tokens d) = Poly (denote d).
+Proof.
+  intros (Hdeg & Hterms & _ & Hk & _) Hkind Hread Htoks.
+  rewrite Hkind in Hk. destruct Hk as [Hb Hk].
+  unfold read_chebyshev, target_settings, coeff_tokens, denote. rewrite Hkind.
+  cbn [s_n s_struct s_density s_repr s_prec]. rewrite Nat2Z.id, rd_target.
+  destruct (d_sparse d) eqn:Hsp.
+  - destruct Hk as (Hnd & Hle & Hne).
+    change (concat (map (term_tokens d true) (d_terms d))) with (concat (map (sparse_tokens d) (d_terms d))).
+    rewrite (sparse_array_ok d false) by auto.
+    f_equal. unfold mk_poly. cbn [s_n s_struct s_density s_repr s_prec]. cbv iota.
+    unfold arr_coeffs. rewrite !map_map.
+    f_equal; apply map_ext; intro i; destruct (find_term i (d_terms d)); reflexivity.
+  - change (concat (map (term_tokens d false) (d_terms d))) with (concat (map (value_tokens d) (d_terms d))).
+    rewrite dense_coeffs_ok by auto. reflexivity.
+Qed.
+
+Lemma secular_pairs_ok d : parts_readable d -> forall ts bs,
+  Forall (term_ok (d_real d) (d_ctype d)) ts -> Forall (term_ok (d_real d) (d_ctype d)) bs ->
+  length ts = length bs ->
+  read_secular_pairs (read_cplx (fp_type d) true (negb (d_real d))) (length ts)
+    (concat (map (fun ab => value_tokens d (fst ab) ++ value_tokens d (snd ab)) (zip_terms ts bs)))
+  = Some (map (term_val (d_real d)) ts, map (term_val (d_real d)) bs).
+Proof.
+  intros Hread ts. induction ts as [|t ts IH]; intros bs Ht Hb Hl; destruct bs as [|b bs]; try discriminate; [reflexivity|].
+  inversion Ht; subst. inversion Hb; subst. cbn [length] in Hl.
+  cbn [zip_terms map concat fst snd length read_secular_pairs].
+  rewrite <- !app_assoc, (read_term_ok d Hread), (read_term_ok d Hread) by assumption.
+  rewrite IH by (auto; lia). reflexivity.
+Qed.
+
+Theorem read_secular_ok d :
+  wf d -> d_kind d = KSecular -> parts_readable d -> parts_tokens d ->
+  read_secular (target_settings d) (coeff_tokens d) = Poly (denote d).
+Proof.
+  intros (Hdeg & Hterms & Hbterms & Hk & _) Hkind Hread Htoks.
+  rewrite Hkind in Hk. destruct Hk as [Hl1 Hl2].
+  unfold read_secular, target_settings, coeff_tokens, denote. rewrite Hkind.
+  cbn [s_n s_struct s_density s_repr s_prec]. rewrite Nat2Z.id, rd_target.
+  change (concat (map (fun ab => term_tokens d false (fst ab) ++ term_tokens d false (snd ab)) (zip_terms (d_terms d) (d_bterms d))))
+    with (concat (map (fun ab => value_tokens d (fst ab) ++ value_tokens d (snd ab)) (zip_terms (d_terms d) (d_bterms d)))).
+  rewrite <- Hl1 at 1. rewrite secular_pairs_ok by (auto; lia). reflexivity.
 Qed.
 
 (* ---- no rendered line contains a newline *)
@@ -332,23 +415,37 @@ Proof. intros H Hl. induction H as [|x ws Hx _ IH]; cbn [app skipws]; [rewrite H
 Lemma has_semicolon_not_blank l : has_char ";" l = true -> blank l = false.
 Proof. intro H. destruct (blank l) eqn:E; auto. destruct (blank_no_tokens l E) as [_ N]. congruence. Qed.
 
-Lemma coeff_tokens_ok d : wf d -> d_legacy d = false -> d_kind d = KMonomial -> exact_type d ->
-  Forall tok_ok (coeff_tokens d).
+Lemma term_tokens_ok d b t : parts_tokens d -> term_ok (d_real d) (d_ctype d) t -> Forall tok_ok (term_tokens d b t).
 Proof.
-  intros (_ & Hterms & _) Hleg Hkind Hex. unfold coeff_tokens. rewrite Hkind.
-  induction Hterms as [|t ts Ht _ IH]; [constructor|].
-  cbn [map concat]. apply Forall_app. split; [|exact IH].
-  unfold term_tokens. apply Forall_app. split.
-  - destruct (d_sparse d); [constructor; [apply nat_token_ok|constructor]|constructor].
-  - apply (value_tokens_ok d Hleg Hex t Ht).
+  intros Htoks Ht. unfold term_tokens. apply Forall_app. split.
+  - destruct b; [constructor; [apply nat_token_ok|constructor]|constructor].
+  - apply (value_tokens_ok d Htoks t Ht).
 Qed.
 
-Theorem parse_render_monomial_exact st pi d :
-  wf d -> d_legacy d = false -> d_kind d = KMonomial -> exact_type d ->
-  parse (render st pi d) = Poly (denote d).
+Lemma coeff_tokens_ok d : wf d -> parts_tokens d -> Forall tok_ok (coeff_tokens d).
 Proof.
-  intros Hwf Hleg Hkind Hex.
-  pose proof (coeff_tokens_ok d Hwf Hleg Hkind Hex) as Htoks.
+  intros (_ & Hterms & Hbterms & _) Htoks. unfold coeff_tokens.
+  assert (G : forall b ts, Forall (term_ok (d_real d) (d_ctype d)) ts -> Forall tok_ok (concat (map (term_tokens d b) ts))).
+  { intros b ts H. induction H as [|t ts Ht _ IH]; [constructor|]. cbn [map concat]. apply Forall_app. split; [|exact IH].
+    apply term_tokens_ok; auto. }
+  destruct (d_kind d); [apply G, Hterms| |apply G, Hterms].
+  revert Hbterms. generalize (d_bterms d). induction Hterms as [|t ts Ht _ IH]; intros bs Hbs; [constructor|].
+  destruct bs as [|b bs]; [constructor|]. inversion Hbs; subst.
+  cbn [zip_terms map concat fst snd].
+  apply Forall_app; split; [apply Forall_app; split; apply term_tokens_ok; auto | apply IH; auto].
+Qed.
+
+(* every 3.x file: from the text to the coefficient reader of its kind, with the settings of d *)
+Theorem parse_render_v3 st pi d :
+  (1 <= d_degree d)%nat -> d_legacy d = false -> Forall tok_ok (coeff_tokens d) ->
+  parse (render st pi d) =
+  match d_kind d with
+  | KSecular => read_secular (target_settings d) (coeff_tokens d)
+  | KChebyshev => read_chebyshev (target_settings d) (coeff_tokens d)
+  | KMonomial => read_monomial (target_settings d) (coeff_tokens d)
+  end.
+Proof.
+  intros Hdeg Hleg Htoks.
   pose proof (options_good st d) as Hgood.
   assert (Hgoodp : Forall opt_good (permute pi (options_of st d))).
   { eapply Permutation_Forall; [|exact Hgood]. symmetry. apply permute_perm. }
@@ -395,11 +492,166 @@ Proof.
   rewrite has_char_ltrim, Hsemi.
   unfold parse_v3. rewrite options_phase_ltrim by exact Hsemi.
   change (o1 :: OL' ++ REST) with ((o1 :: OL') ++ REST). rewrite <- EOL. unfold OL.
-  destruct Hwf as (Hdeg & Hw).
   rewrite options_phase_of_render by auto.
   change (s_n (target_settings d)) with (Z.of_nat (d_degree d)).
-  change (s_repr (target_settings d)) with (d_kind d). rewrite Hkind.
+  change (s_repr (target_settings d)) with (d_kind d).
   destruct (Z.of_nat (d_degree d) =? -1)%Z eqn:E; [lia|].
-  rewrite HTOK.
-  apply read_monomial_ok; auto. split; auto.
+  rewrite HTOK. destruct (d_kind d); reflexivity.
+Qed.
+
+(* the composed round trip for every 3.x description whose number tokens are readable *)
+Theorem parse_render_3x st pi d :
+  wf d -> d_legacy d = false -> parts_readable d -> parts_tokens d ->
+  parse (render st pi d) = Poly (denote d).
+Proof.
+  intros Hwf Hleg Hread Htoks.
+  rewrite parse_render_v3; [|apply Hwf|exact Hleg|apply coeff_tokens_ok; auto].
+  destruct (d_kind d) eqn:K.
+  - apply read_monomial_ok; auto.
+  - apply read_secular_ok; auto.
+  - apply read_chebyshev_ok; auto.
+Qed.
+
+Theorem parse_render_exact st pi d :
+  wf d -> d_legacy d = false -> exact_type d -> parse (render st pi d) = Poly (denote d).
+Proof.
+  intros Hwf Hleg Hex. destruct (exact_readable d Hleg Hex). apply parse_render_3x; auto.
+Qed.
+
+Theorem parse_render_monomial_exact st pi d :
+  wf d -> d_legacy d = false -> d_kind d = KMonomial -> exact_type d ->
+  parse (render st pi d) = Poly (denote d).
+Proof. intros. apply parse_render_exact; auto. Qed.
+
+(* ---- floating-point literals: mpf_set_str's value on a rendered literal is the literal's value *)
+
+Lemma span_digits_app ds rest : all_digits ds ->
+  match rest with [] => True | c :: _ => is_digit c = false end ->
+  span_digits (ds ++ rest) = (ds, rest).
+Proof.
+  intros H Hr. induction H as [|c ds Hc _ IH].
+  - cbn [app]. destruct rest as [|c r]; [reflexivity|]. cbn [span_digits]. rewrite Hr. reflexivity.
+  - cbn [app span_digits]. rewrite Hc, IH. reflexivity.
+Qed.
+
+Lemma parse_expo_render e : wf_expo true e -> parse_expo (render_expo e) = Some e.
+Proof.
+  destruct e as [[m sg dg]|]; [|reflexivity]. cbn [wf_expo ex_mark ex_digits render_expo ex_sign].
+  intros (Hm & Hd & Hne).
+  assert (Hmark : ((m =c? "e") || (m =c? "E") || (m =c? "@")) = true).
+  { destruct Hm as [E|[E|[_ E]]]; subst m; reflexivity. }
+  unfold parse_expo. rewrite Hmark.
+  assert (SD : span_digits dg = (dg, [])).
+  { rewrite <- (app_nil_r dg) at 1. apply span_digits_app; auto. }
+  assert (NS : match dg with
+               | c :: r' => if c =c? "+" then (EPlus, r') else if c =c? "-" then (EMinus, r') else (ENone, dg)
+               | [] => (ENone, dg) end = (ENone, dg)).
+  { destruct dg as [|c0 dg0]; [reflexivity|]. inversion Hd; subst.
+    rewrite !(digit_neq c0 _ H1) by reflexivity. reflexivity. }
+  destruct sg; cbn [render_esign app].
+  - clear NS. destruct dg as [|c0 dg0]; [congruence|]. inversion Hd; subst.
+    rewrite !(digit_neq c0 _ H1) by reflexivity. rewrite SD. reflexivity.
+  - change ("+" =c? "+") with true. cbv iota. rewrite SD. destruct dg; [congruence|reflexivity].
+  - change ("-" =c? "+") with false. change ("-" =c? "-") with true. cbv iota. rewrite SD. destruct dg; [congruence|reflexivity].
+Qed.
+
+Lemma expo_head e : wf_expo true e -> match render_expo e with [] => True | c :: _ => is_digit c = false end.
+Proof.
+  destruct e as [[m sg dg]|]; [|exact (fun _ => I)]. cbn [wf_expo ex_mark render_expo].
+  intros (Hm & _). destruct Hm as [E|[E|[_ E]]]; subst m; reflexivity.
+Qed.
+
+Theorem parse_declit_render l : wf_file_lit l -> parse_declit (render_declit l) = Some l.
+Proof.
+  destruct l as [sg ip dot fp ex]. unfold wf_file_lit, wf_body, render_declit.
+  cbn [dl_sign dl_int dl_dot dl_frac dl_exp].
+  intros (Hs & (Hi & Hf & Hdot & Hne) & He).
+  pose proof (parse_expo_render ex He) as PE. pose proof (expo_head ex He) as EH.
+  set (tailx := render_expo ex) in *.
+  set (dotpart := (if dot then "." :: fp else []) ++ tailx).
+  assert (Hhead : match dotpart with [] => True | c :: _ => is_digit c = false end).
+  { unfold dotpart. destruct dot; [reflexivity|exact EH]. }
+  assert (Body : forall pre, parse_declit (pre ++ ip ++ dotpart) =
+                 (let (sg0, r) := match pre ++ ip ++ dotpart with c :: r => if c =c? "-" then (["-"], r) else ([], pre ++ ip ++ dotpart) | [] => ([], pre ++ ip ++ dotpart) end in
+                  let (ip0, r1) := span_digits r in
+                  let '(dot0, fp0, r2) := match r1 with
+                        | c :: r' => if c =c? "." then let (f, r'') := span_digits r' in (true, f, r'') else (false, [], r1)
+                        | [] => (false, [], r1) end in
+                  match ip0 ++ fp0 with
+                  | [] => None
+                  | _ => match parse_expo r2 with
+                         | Some e => Some {| dl_sign := sg0; dl_int := ip0; dl_dot := dot0; dl_frac := fp0; dl_exp := e |}
+                         | None => None end
+                  end)) by reflexivity.
+  assert (Core : forall sg0,
+     (let (ip0, r1) := span_digits (ip ++ dotpart) in
+      let '(dot0, fp0, r2) := match r1 with
+            | c :: r' => if c =c? "." then let (f, r'') := span_digits r' in (true, f, r'') else (false, [], r1)
+            | [] => (false, [], r1) end in
+      match ip0 ++ fp0 with
+      | [] => None
+      | _ => match parse_expo r2 with
+             | Some e => Some {| dl_sign := sg0; dl_int := ip0; dl_dot := dot0; dl_frac := fp0; dl_exp := e |}
+             | None => None end
+      end) = Some {| dl_sign := sg0; dl_int := ip; dl_dot := dot; dl_frac := fp; dl_exp := ex |}).
+  { intro sg0. rewrite span_digits_app by assumption. unfold dotpart.
+    destruct dot.
+    - cbn [app]. rewrite Ascii.eqb_refl. rewrite span_digits_app by assumption.
+      destruct (ip ++ fp) eqn:E; [congruence|]. rewrite PE. reflexivity.
+    - rewrite (Hdot eq_refl) in *. cbn [app].
+      destruct tailx as [|c r] eqn:ET.
+      + rewrite app_nil_r in *. destruct ip; [congruence|]. cbn [parse_expo] in *. inversion PE. reflexivity.
+      + assert (Ec : (c =c? ".") = false).
+        { destruct ex as [[m s0 dg]|]; [|discriminate]. cbn [render_expo ex_mark] in ET. inversion ET; subst c.
+          destruct He as (Hm & _). cbn [ex_mark] in Hm. destruct Hm as [E|[E|[_ E]]]; subst m; reflexivity. }
+        rewrite Ec. rewrite app_nil_r in *. destruct ip; [congruence|]. cbn [app]. rewrite PE. reflexivity. }
+  replace (sg ++ ip ++ (if dot then "." :: fp else []) ++ tailx) with (sg ++ ip ++ dotpart) by reflexivity.
+  rewrite Body.
+  destruct Hs as [Es|Es]; subst sg; cbn [app].
+  - assert (Hfirst : match ip ++ dotpart with c :: _ => (c =c? "-") = false | [] => True end).
+    { destruct ip as [|c ip']; cbn [app].
+      - unfold dotpart. destruct dot; [reflexivity|]. rewrite (Hdot eq_refl) in Hne. cbn in Hne. congruence.
+      - inversion Hi; subst. apply digit_neq; auto. }
+    destruct (ip ++ dotpart) as [|c r] eqn:E.
+    + exfalso. apply app_eq_nil in E. destruct E as [E1 E2]. subst ip. unfold dotpart in E2.
+      destruct dot; [discriminate|]. rewrite (Hdot eq_refl) in Hne. cbn in Hne. congruence.
+    + rewrite Hfirst. rewrite <- E. apply Core.
+  - rewrite Ascii.eqb_refl. apply Core.
+Qed.
+
+Lemma declit_tchars l : wf_file_lit l -> tok_ok (render_declit l).
+Proof.
+  destruct l as [sg ip dot fp ex]. unfold wf_file_lit, wf_body, render_declit.
+  cbn [dl_sign dl_int dl_dot dl_frac dl_exp].
+  intros (Hs & (Hi & Hf & Hdot & Hne) & He). split.
+  - intro E. apply app_eq_nil in E. destruct E as [_ E]. apply app_eq_nil in E. destruct E as [E1 E].
+    apply app_eq_nil in E. destruct E as [E2 _]. subst ip. destruct dot; [discriminate|].
+    rewrite (Hdot eq_refl) in Hne. cbn in Hne. congruence.
+  - repeat (apply Forall_app; split).
+    + destruct Hs as [E|E]; subst sg; repeat constructor.
+    + apply digits_tchars, Hi.
+    + destruct dot; [constructor; [repeat split|apply digits_tchars, Hf]|constructor].
+    + destruct ex as [[m s0 dg]|]; [|constructor]. cbn [wf_expo ex_mark ex_digits render_expo ex_sign] in *.
+      destruct He as (Hm & Hd & _). constructor.
+      * destruct Hm as [E|[E|[_ E]]]; subst m; repeat split.
+      * apply Forall_app; split; [destruct s0; repeat constructor|apply digits_tchars, Hd].
+Qed.
+
+Lemma float_readable d : d_ctype d = TFloat -> parts_readable d /\ parts_tokens d.
+Proof.
+  intro Hct. split.
+  - intros x rest H. rewrite Hct in H. destruct x as [| |l]; cbn [num_ok] in H; try contradiction.
+    unfold fp_type, part_tokens. rewrite Hct. destruct (d_legacy d); cbn [andb num_tokens app read_part];
+      unfold decimal_value; rewrite parse_declit_render by exact H; cbn [option_map];
+      unfold canon, qraw, num_value, declit_value; rewrite Qcanon.Qred_involutive; reflexivity.
+  - intros x H. rewrite Hct in H. destruct x as [| |l]; cbn [num_ok] in H; try contradiction.
+    unfold part_tokens. destruct (d_legacy d && _); cbn [num_tokens]; (constructor; [apply declit_tchars, H|constructor]).
+Qed.
+
+(* the composed round trip for 3.x floating-point files of every kind: the model parser keeps the exact
+   decimal value (rounding to the mpf precision is C10_float_within_prec's business) *)
+Theorem parse_render_float st pi d :
+  wf d -> d_legacy d = false -> d_ctype d = TFloat -> parse (render st pi d) = Poly (denote d).
+Proof.
+  intros Hwf Hleg Hct. destruct (float_readable d Hct). apply parse_render_3x; auto.
 Qed.
